@@ -119,6 +119,27 @@ theorem C08_conn_stream (slot : Bytes → Nat) (limit : Nat) (rs : List Req) (hr
   rw [hv, C08_stream slot limit rs hrs chunks h] at i1 i2 i3
   exact ⟨i1, i2, i3 rfl⟩
 
+/-- the error branches of the two primitives, stated outright: `Peek(n)` is refused exactly when `n` exceeds what
+    is buffered (and returns the first `n` bytes of leftover ++ fresh otherwise); `Discard(n)` with `n` outside
+    `1 .. buffered` drops everything and reports how much that was -/
+theorem C08_conn_peek_total (c : InConn) (he : EInv c.inb) (n : Int) :
+    (n > (c.view.length : Int) ∧ c.peek n = none) ∨
+    (n ≤ (c.view.length : Int) ∧ c.peek n = some (if n ≤ 0 then c.view else c.view.take n.toNat)) := by
+  by_cases hn : n ≤ (c.view.length : Int)
+  · exact Or.inr ⟨hn, peek_spec c he n hn⟩
+  · exact Or.inl ⟨by omega, (peek_none_iff c he n).mpr (by omega)⟩
+
+theorem C08_conn_discard_total (pool : Pool) (c : InConn) (hp : PInv pool) (he : EInv c.inb) (n : Int) :
+    (c.discard pool n).2.1.view = (if n ≤ 0 ∨ n > (c.view.length : Int) then [] else c.view.drop n.toNat) := by
+  by_cases h : n ≤ 0 ∨ n > (c.view.length : Int)
+  · rw [if_pos h]; exact (discard_reset_spec pool c hp he n h).2.2.1
+  · rw [if_neg h]
+    have h0 : 0 < n.toNat := by omega
+    have hle : n.toNat ≤ c.view.length := by omega
+    have := (discard_spec pool c hp he n.toNat h0 hle).2.2.1
+    have e : ((n.toNat : Nat) : Int) = n := by omega
+    rw [e] at this; exact this
+
 /- non-vacuity: "GET a" then "PING", cut inside the first request and again inside the second: the leftover
    travels through the ring twice; kernel-evaluated -/
 example :
